@@ -16,7 +16,11 @@ Fields == <<"body_includes", "header_includes", "private_members", "instance_ini
             "ctor_lines", "initialize_lines", "link_libraries">>
 
 \* line texts; H-lines carry characters that are special to the template engine / C++ / CMake
-L(f, x) == CASE f = "body_includes"           -> IF x = "H" THEN "vp_b{{7*7}}.h" ELSE "vp_body_" \o x \o ".h"
+\* S-lines: ONE text shared by two fields (the same header in body_includes and header_includes, the same
+\* statement in the constructor and in initialize()): each field still gets its own copy
+L(f, x) == CASE x = "S" /\ f \in {"body_includes", "header_includes"} -> "vp_shared.h"
+             [] x = "S" /\ f \in {"ctor_lines", "initialize_lines"} -> "vp_both();"
+             [] f = "body_includes"           -> IF x = "H" THEN "vp_b{{7*7}}.h" ELSE "vp_body_" \o x \o ".h"
              [] f = "header_includes"         -> IF x = "H" THEN "vp_h{% raw %}.h" ELSE "vp_head_" \o x \o ".h"
              [] f = "private_members"         -> IF x = "H" THEN "int vp_m_H = '<' & '>'; // {# no comment #}" ELSE "int vp_m_" \o x \o ";"
              [] f = "instance_initialization" -> IF x = "H" THEN "vp_m_H ({{ 1 }})" ELSE "vp_m_" \o x \o " (1)"
@@ -24,7 +28,7 @@ L(f, x) == CASE f = "body_includes"           -> IF x = "H" THEN "vp_b{{7*7}}.h"
              [] f = "initialize_lines"        -> IF x = "H" THEN "vp_init(\"}}\");" ELSE "vp_init_" \o x \o "();"
              [] f = "link_libraries"          -> IF x = "H" THEN "vpLib{{H}}" ELSE "vpLib" \o x
 
-Shapes == {"allA", "allAB", "allBA", "incl", "members", "hostile", "empty", "emptylists"}
+Shapes == {"allA", "allAB", "allBA", "incl", "members", "hostile", "shared", "empty", "emptylists"}
 LettersOf(shape, f) ==
   CASE shape = "allA" -> <<"A">>
     [] shape = "allAB" -> <<"A", "B">>
@@ -32,6 +36,7 @@ LettersOf(shape, f) ==
     [] shape = "incl" -> IF f \in {"body_includes", "header_includes"} THEN <<"C">> ELSE <<>>
     [] shape = "members" -> IF f \in {"private_members", "instance_initialization", "ctor_lines"} THEN <<"A", "C">> ELSE <<>>
     [] shape = "hostile" -> <<"H">>
+    [] shape = "shared" -> IF f \in {"body_includes", "header_includes", "ctor_lines", "initialize_lines"} THEN <<"S">> ELSE <<>>
     [] shape \in {"empty", "emptylists"} -> <<>>
 LinesOf(b, f) == LET ls == LettersOf(b.shape, f) IN [i \in 1..Len(ls) |-> L(f, ls[i])]
 
@@ -51,5 +56,5 @@ RECURSIVE ConcatLines(_, _, _, _)
 ConcatLines(bl, idx, f, k) == IF k > Len(idx) THEN <<>> ELSE LinesOf(bl[idx[k]], f) \o ConcatLines(bl, idx, f, k + 1)
 Slots(bl, f) == ConcatLines(bl, Firsts(bl), f, 1)
 
-AllLines == {L(Fields[i], x) : i \in DOMAIN Fields, x \in {"A", "B", "C", "H"}}
+AllLines == {L(Fields[i], x) : i \in DOMAIN Fields, x \in {"A", "B", "C", "H", "S"}}
 =============================================================================
